@@ -865,7 +865,9 @@ class Document:
         """
         Relative position for the last non blank character of this line.
         """
-        return len(self.current_line.rstrip()) - self.cursor_position_col - 1
+        # On a blank line there is no such character: stay on this line (go
+        # to its start) instead of returning the position before the line.
+        return max(0, len(self.current_line.rstrip()) - 1) - self.cursor_position_col
 
     def get_column_cursor_position(self, column: int) -> int:
         """
